@@ -74,6 +74,8 @@ type clEngine struct {
 	lastSwap     swapRes
 	landedNow    bool     // the last swap ended exactly on an initialised tick
 	wantSolvency bool     // run the everybody-withdraws oracle right after this op
+	auth         []int    // indices (into types.SupportedUptimes) of the uptimes authorised in this history (AuthorizedUptimes param)
+	forceUptime  int      // uptime index the next incentive record must use (scripted sequences); -1 = random
 }
 
 // scriptStep: one op of a directed sequence (property C08: accrue -> partial withdraw / add / transfer -> (swap) -> claim
@@ -101,6 +103,11 @@ const (
 	kCreate      = 204
 	kIncentiveDry = 205 // incentive record that runs dry within the next time advance
 	kAdvanceLong = 206 // idle jump that overshoots the end of the running records
+	// uptime sequences (arg of kAdvanceAge: uptime index * 8 + age class, see advanceToAge)
+	kAdvanceAge      = 207 // block-time advance that puts the position at an age relative to an uptime (1 ns below, exactly at, 1 ns above, above, far above, below)
+	kIncentiveUptime = 208 // incentive record on the uptime with index arg
+	kCreateIn        = 209 // new position whose range contains the current tick
+	kWithdrawFull    = 210 // complete withdrawal of the position
 )
 
 // replay: the op lines of the current history (what `./check --replay` / the Lean driver would be fed), shortened to the
@@ -438,11 +445,28 @@ func runCL(t *testing.T, seed int64, n int, dir string) {
 	done := 0
 	for done < n {
 		h.Reset()
-		e := &clEngine{h: h, o: o, r: r, pos: map[uint64]*clPos{}, inc: newIncState()}
-		{ // incentives may be created for the first four supported uptimes (1ns, 1min, 1h, 1d)
+		e := &clEngine{h: h, o: o, r: r, pos: map[uint64]*clPos{}, inc: newIncState(), forceUptime: -1}
+		authMask := 0
+		{ // a random non-empty subset of the six supported uptimes (1ns, 1min, 1h, 1d, 1w, 2w) is authorised per history; one history
+			// in eight keeps the chain default (1ns only)
 			prm := h.App.ConcentratedLiquidityKeeper.GetParams(h.Ctx)
-			prm.AuthorizedUptimes = cltypes.SupportedUptimes[:4]
+			if r.Intn(8) == 0 {
+				authMask = 1
+			} else {
+				for authMask&^1 == 0 { // at least one non-default uptime
+					authMask = r.Intn(64)
+				}
+			}
+			prm.AuthorizedUptimes = nil
+			for i, u := range cltypes.SupportedUptimes {
+				if authMask>>i&1 == 1 {
+					prm.AuthorizedUptimes = append(prm.AuthorizedUptimes, u)
+					e.auth = append(e.auth, i)
+					o.Count("pool.authorized-uptime:" + uptimeLabel(i))
+				}
+			}
 			h.App.ConcentratedLiquidityKeeper.SetParams(h.Ctx, prm)
+			o.Count(fmt.Sprintf("pool.authorized-uptimes=%d", len(e.auth)))
 		}
 		e.feesPaid = [2]*big.Int{new(big.Int), new(big.Int)}
 		e.feesOut = [2]*big.Int{new(big.Int), new(big.Int)}
@@ -476,7 +500,7 @@ func runCL(t *testing.T, seed int64, n int, dir string) {
 		}
 		e.inc.t0 = h.Ctx.BlockTime()
 		e.scale, e.ifactor = scale, ifactor
-		o.Emit(fmt.Sprintf("clp reset %d %s %s %s %d", e.spacing, e.spf.BigInt(), scale.BigInt(), ifactor.BigInt(), 4), "ok", true)
+		o.Emit(fmt.Sprintf("clp reset %d %s %s %s %d", e.spacing, e.spf.BigInt(), scale.BigInt(), ifactor.BigInt(), authMask), "ok", true)
 		o.Count("pool.incfactor" + ifactor.String()[:4])
 		o.Count("pool.scale" + scale.String()[:4])
 		o.Count(fmt.Sprintf("pool.spacing%d", e.spacing))
@@ -509,6 +533,7 @@ func runCL(t *testing.T, seed int64, n int, dir string) {
 			o.Emit("clp fdump", e.dumpFeesImpl(), true)
 			o.Emit("clp idump", e.dumpIncImpl(), true)
 			e.oracleNoLoss(e.opClass)
+			e.oracleJoinTimes()
 			e.oracleIncentives()
 			if e.r.Intn(3) == 0 {
 				o.Emit("clp dump", e.dumpImpl(), true)
@@ -617,6 +642,12 @@ func (e *clEngine) step() {
 		st := e.queue[0]
 		e.queue = e.queue[1:]
 		kind, arg, e.forced = st.kind, st.arg, true
+	} else if nd := e.nonDefaultAuth(); len(nd) > 0 && len(e.pos) > 0 && e.r.Intn(7) == 0 {
+		e.queue = e.uptimeScript(nd)
+		o.Count("script.uptime-sequence")
+		st := e.queue[0]
+		e.queue = e.queue[1:]
+		kind, arg, e.forced = st.kind, st.arg, true // the first step never names a position
 	} else if len(e.pos) > 0 && e.r.Intn(9) == 0 {
 		// directed sequence on one position, preferably one that is in range now (so that the first swap accrues to it)
 		q := e.anyPos()
@@ -672,9 +703,15 @@ func (e *clEngine) step() {
 		kind, e.forced = st.kind, true
 	}
 scripted:
-	fullRange, smallFirst := false, false
+	fullRange, smallFirst, inRange, fullWithdraw := false, false, false, false
 	if kind == kCreate {
 		kind, fullRange, smallFirst = 0, arg >= 1, arg == 2
+	}
+	if kind == kCreateIn {
+		kind, inRange = 0, true
+	}
+	if kind == kWithdrawFull {
+		kind, fullWithdraw = kWithdraw, true
 	}
 	if len(e.pos) == 0 && kind != 0 {
 		kind = 0
@@ -720,6 +757,14 @@ scripted:
 	case kind == kAdvanceLong:
 		e.opClass = "advance"
 		e.advanceTime(e.overshootDuration())
+	case kind == kAdvanceAge:
+		e.opClass = "advance"
+		e.advanceToAge(e.anyPos(), arg/8, arg%8)
+	case kind == kIncentiveUptime:
+		e.opClass = "create-incentive"
+		e.forceUptime = arg
+		e.createIncentiveClass("")
+		e.forceUptime = -1
 	case kind < 28: // create position (sometimes as twin / k-multiple of the previous one)
 		e.opClass = "create"
 		owner := e.r.Intn(3)
@@ -744,6 +789,19 @@ scripted:
 			if !fullRange && e.r.Intn(3) == 0 {
 				lower, upper = -100000*e.spacing, 100000*e.spacing
 			}
+		} else if inRange { // a range around the current tick (the position earns incentives from its first moment)
+			cur := e.pool().GetCurrentTick()
+			base := cur - ((cur%e.spacing)+e.spacing)%e.spacing
+			lower = base - int64(e.r.Intn(200))*e.spacing
+			upper = base + int64(1+e.r.Intn(200))*e.spacing
+			if lower < cltypes.MinInitializedTick {
+				lower = cltypes.MinInitializedTick
+			}
+			if upper > cltypes.MaxTick {
+				upper = cltypes.MaxTick
+			}
+			a0 = new(big.Int).Mul(big.NewInt(int64(1+e.r.Intn(1000))), pow10(6+e.mag+e.r.Intn(4)))
+			a1 = new(big.Int).Mul(big.NewInt(int64(1+e.r.Intn(1000))), pow10(6+e.mag+e.r.Intn(4)))
 		}
 		id, ok := e.create(owner, lower, upper, a0, a1)
 		if ok && e.r.Intn(3) == 0 { // fairness twins: same block, same range, same amounts, other owner
@@ -775,6 +833,9 @@ scripted:
 		sel := e.r.Intn(5)
 		if e.forced {
 			sel = 0 // scripted: a genuine partial withdrawal
+		}
+		if fullWithdraw {
+			sel = 3
 		}
 		snap := e.incBefore(q, owner)
 		switch sel {
@@ -955,6 +1016,7 @@ scripted:
 		e.opClass = "transfer"
 		q := e.anyPos()
 		to := (q.owner + 1 + e.r.Intn(2)) % 3
+		tsnap := e.transferBefore(q)
 		err := e.atomic(func(ctx sdk.Context) error {
 			_, err := ms.TransferPositions(ctx, &cltypes.MsgTransferPositions{PositionIds: []uint64{q.id}, Sender: e.accs[q.owner].String(), NewOwner: e.accs[to].String()})
 			return err
@@ -974,6 +1036,7 @@ scripted:
 		}
 		q.owner = to
 		q.untouched = false
+		e.transferAfter(tsnap)
 	}
 }
 
